@@ -47,3 +47,15 @@ Example C08_witness :
   parse_source [102;105;110;100;32;97;108;108;32;39;97;39;32;45;45]%N <> FCrash /\             (* find all 'a' -- *)
   parse_source [102;105;110;100;32;97;108;108;32;64;47;40;47]%N = FParseErr.                   (* find all @/(/ *)
 Proof. vm_compute. repeat split; try discriminate. eexists; reflexivity. Qed.
+
+(* ---- "within bounded time and memory" read as "bounded by the length of the source" is FALSE of the faithful
+   model: loop counts are unrolled, so a 24-character source yields 200 instructions (and 2000 for one more character, and so on) (known finding
+   K25; on the implementation the same shape with a larger count exhausts memory). ---- *)
+Definition k25_source : list N := [102; 105; 110; 100; 32; 97; 108; 108; 32; 101; 120; 97; 99; 116; 108; 121; 32; 50; 48; 48; 32; 39; 97; 39]%N.
+(* find all exactly 200 'a' *)
+Definition code_size (bc : list bcommand) : nat :=
+  fold_right (fun c n => match c with BFind _ _ _ _ body => length body + n | BReplace _ _ _ _ body _ => length body + n | _ => n end) 0%nat bc.
+Theorem C08_refuted_code_size_not_bounded_by_source_length :
+  exists bc, compile_source k25_source = COk bc /\ (length k25_source = 24)%nat /\ (200 <= code_size bc)%nat.
+Proof. eexists. split; [vm_compute; reflexivity|]. split; [reflexivity|]. vm_compute. repeat constructor. Qed.
+Print Assumptions C08_refuted_code_size_not_bounded_by_source_length.
